@@ -13,9 +13,12 @@ from __future__ import annotations
 import io
 import posixpath
 import struct
+import warnings
 import zipfile
 import zlib
 from xml.sax.saxutils import quoteattr
+
+warnings.filterwarnings("ignore", message="Duplicate name", category=UserWarning)
 
 # ------------------------------------------------------------------------------------ image files
 
@@ -66,9 +69,9 @@ def _zip(members: list[tuple[str, bytes]]) -> bytes:
     with zipfile.ZipFile(buf, "w", zipfile.ZIP_DEFLATED) as z:
         seen = set()
         for name, data in members:
-            if name in seen:
+            if (name, data) in seen:
                 continue
-            seen.add(name)
+            seen.add((name, data))
             z.writestr(name, data)
     return buf.getvalue()
 
@@ -113,7 +116,15 @@ def opc_target(source_part: str, dest_part: str, style: str) -> str:
 
 
 def media_members(spec):
-    return [(m["part"], m["data"]) for m in spec["media"] if m.get("present", True)]
+    """(member name, bytes) in archive order; a media with "dup_first" is preceded by an entry of the SAME name holding
+    other bytes (zipfile and read_zip_member resolve a name to the last central-directory entry)"""
+    out = []
+    for m in spec["media"]:
+        if m.get("present", True):
+            if m.get("dup_first") is not None:
+                out.append((m["part"], m["dup_first"]))
+            out.append((m["part"], m["data"]))
+    return out
 
 
 # ------------------------------------------------------------------------------------ DOCX
@@ -346,8 +357,8 @@ def build_odf(spec) -> bytes:
         z.writestr("META-INF/manifest.xml", "".join(man))
         seen = set()
         for name, data in media_members(spec):
-            if name not in seen:
-                seen.add(name)
+            if (name, data) not in seen:
+                seen.add((name, data))
                 z.writestr(name, data)
     return buf.getvalue()
 
@@ -381,8 +392,8 @@ def build_epub(spec) -> bytes:
         z.writestr(chap, xhtml)
         seen = set()
         for name, data in media_members(spec):
-            if name not in seen:
-                seen.add(name)
+            if (name, data) not in seen:
+                seen.add((name, data))
                 z.writestr(name, data)
     return buf.getvalue()
 
